@@ -291,6 +291,9 @@ func (k *K) vert(r *rec, fn *ssa.Function) (pipelines []*types.Func, inlinedPipe
 			}
 			for _, a := range ev.Args {
 				if si, ok := c17.SliceInfoOf(a); ok && si.ID != "" {
+					if img := k.classifyStores(res, si.ID, fl.family(inputID)); img.kind != imgUnknown {
+						continue // an element-wise image of the input: index i still means input point i (DEL-SAME-POINTS judges the values)
+					}
 					if _, isPts := a.(c17.Val); isPts && !closure(fl.fwd, si.ID)[srcID] {
 						bad("the triangulation is computed by " + ev.Fn.Name() + " from the list " + si.ID + ", the positions are copied from " + srcID + ", which is not that list (nor grown from it): vertex id i does not mean position i")
 						return
@@ -361,7 +364,9 @@ func (k *K) vert(r *rec, fn *ssa.Function) (pipelines []*types.Func, inlinedPipe
 	facts = append(facts, "indices: append(indices, t[·], t[·], t[·]) with the three different vertex ids of every triangle ranged over; the array handed to the mesh is the final version")
 	r.hold("DEL-VERT", cons, pos, facts...)
 	// DEL-INPUT on the mesh builder itself (the pipeline function is checked on its own run)
-	k.ruleInput(r, cons, pos, res, map[string]bool{inputID: true}, seenFn)
+	k.ruleInput(r, cons, pos, res, map[string]bool{inputID: true}, seenFn, nil)
+	// DEL-SAME-POINTS: what the triangulating function is handed
+	k.pipelineArgument(r, cons, pos, res, fl, inputID, srcID, seenFn)
 	// is the pipeline itself inlined in this function (it stores triangles into a fresh map)?
 	for _, p := range res.Paths {
 		for _, ev := range p.Events {
